@@ -20,6 +20,9 @@ type predCase struct {
 	B     int          `json:"b"`
 	Bare  bool         `json:"bare_where,omitempty"` // `where P` instead of `select * where P`
 	Del   bool         `json:"delete,omitempty"`     // C02: delete form
+	// C02: judged in row mode only (the predicate is evaluable pair by pair
+	// only thanks to row-mode short-circuit; batch evaluation may refuse it)
+	RowOnly bool `json:"row_only,omitempty"`
 }
 
 func (c *predCase) query() string {
